@@ -953,7 +953,9 @@ class ShapeUnit(Unit):
         if nstmt >= 2:
             w += ["lookup order matters", "ignore rule blocked a match", "explicit subtable break"]
         if nstmt >= 3:
-            w = [x for x in w if x not in ("language scope changes result", "alternate index 2 differs", "explicit subtable break", "reverse substitution applied")]
+            # the reduced pool of the three-statement programs has no ignore rule, no alternates, no
+            # reverse chaining and no language scopes: those witnesses belong to shape-1 / shape-2
+            w = [x for x in w if x not in ("language scope changes result", "alternate index 2 differs", "explicit subtable break", "reverse substitution applied", "ignore rule blocked a match")]
         self.required_witnesses = tuple(w)
 
     def setup(self, tier, seed):
